@@ -118,6 +118,10 @@ func (r *scanner) rangeWithLimit(ctx context.Context, start []byte, end []byte, 
 	if err != nil {
 		return nil, err
 	}
+	// see scan: look at the compaction record once more now that the data has been read
+	if err = r.checkCompactRace(ctx, revision, false); err != nil {
+		return nil, err
+	}
 	return receiver.result, nil
 }
 
@@ -294,6 +298,16 @@ func (r *scanner) scan(ctx context.Context, start []byte, end []byte, revision u
 	for _, e := range errList {
 		if e != nil {
 			return 0, e
+		}
+	}
+
+	if !compact {
+		// only TiKV iterates at the timestamp taken before the first look at the compaction record; the
+		// iterators of the other engines read the store as it is when they are opened, so a compaction accepted
+		// in between may have removed versions this read needed. A compaction writes its record before its
+		// first delete: if the record still admits the revision now, nothing this read saw was compacted.
+		if err = r.checkCompactRace(ctx, revision, false); err != nil {
+			return 0, err
 		}
 	}
 
